@@ -54,6 +54,8 @@ def cases(rng, tier):
             out.append({"kind": rng.choice(["scalar_left", "scalar_right"]), "a": a, "f": f, "c": rng.randint(0, 3), "dta": "int64"})
         out.append({"kind": "scalar_right", "a": a, "f": rng.choice(BIN + BIN_EXTRA), "c": rng.choice([0, 1, 2, 3]), "dta": rng.choice(gens.DTYPES)})
         out.append({"kind": "scalar_left", "a": a, "f": rng.choice(BIN + BIN_EXTRA), "c": rng.choice([1, 2, 3]), "dta": rng.choice(gens.DTYPES)})
+        out.append({"kind": rng.choice(["scalar_left", "scalar_right"]), "a": a, "f": rng.choice(BIN + BIN_EXTRA), "c": rng.choice([0, 1, 2, 3]), "dta": rng.choice(gens.DTYPES),
+                    "cform": rng.choice(["int8", "int64", "uint8", "float32", "float64", "uint64", "bool", "int16"])})     # (np.isscalar: typed numpy scalars, not 0-d arrays)
         out.append({"kind": "unary", "a": a, "f": rng.choice(UNARY), "dta": rng.choice(gens.DTYPES), "predecode": rng.random() < 0.5})
         out.append({"kind": rng.choice(["scalar_left", "scalar_right"]), "a": a, "f": rng.choice(BIN), "c": rng.randint(1, 3), "dta": rng.choice(["int64", "float64", "uint8"]), "predecode": True})
         for red in rng.sample(RED, 3):
@@ -163,6 +165,15 @@ def _hist_kw(p):
     return kw
 
 
+def _c(p):
+    """the scalar operand: a Python number, or (cform) a TYPED numpy scalar / 0-d array -- numpy promotes those differently"""
+    cf = p.get("cform")
+    if not cf:
+        return p["c"]
+    v = np.dtype(cf.split(":")[0]).type(p["c"])
+    return np.array(v) if cf.endswith(":0d") else v
+
+
 def _vals(classes, dt, mode=True):
     return rlgen.to_values(classes, dt, small=mode)
 
@@ -213,9 +224,9 @@ def run_impl(p):
             if k == "unary":
                 res = uf(x)
             elif k == "scalar_right":
-                res = uf(x, p["c"])
+                res = uf(x, _c(p))
             elif k == "scalar_left":
-                res = uf(p["c"], x)
+                res = uf(_c(p), x)
             else:
                 y = RunLengthArray.from_array(_vals(p["b"], p["dtb"], p.get("vmb", True)))
                 if p.get("split") and np.dtype(p["dta"]).kind in "iu" and np.dtype(p["dta"]).itemsize >= 4:
@@ -263,9 +274,9 @@ def oracle(p):
             if k == "unary":
                 res = uf(a)
             elif k == "scalar_right":
-                res = uf(a, p["c"])
+                res = uf(a, _c(p))
             elif k == "scalar_left":
-                res = uf(p["c"], a)
+                res = uf(_c(p), a)
             else:
                 b = _vals(p["b"], p["dtb"], p.get("vmb", True))
                 if len(a) != len(b):
@@ -282,7 +293,7 @@ def lean_request(p):
         return None
     if p.get("dta") != "int64" or p.get("dtb", "int64") != "int64":
         return None
-    if p.get("vm", True) is not True or p.get("vmb", True) is not True:
+    if p.get("vm", True) is not True or p.get("vmb", True) is not True or p.get("cform"):
         return None
     if k == "arrays" and p["f"] in BIN:
         return {"op": "RL.binop", "kind": "arrays", "a": p["a"], "b": p["b"], "f": p["f"]}
